@@ -126,6 +126,37 @@ def run(ctx):
     sets = [n for n in ppv.nodes if n.get("k") == "bin" and n["op"] == "=" and expr_str(n.child("l")) == "hasPriorResult"]
     ok = len(sets) == 1 and any(p and a == "value.isSuccessfulCommand()" for a, p in (bpp.at_node(sets[0]) or frozenset()))
     r.check(ok, "providePriorValue|prior-result-only-if-successful", "", "a prior value that is not a successful command enables update-if-newer", ppv)
+    # update-if-newer: the mtime shortcut is switched off unless a successful prior result with the same command hash exists
+    ru = rep.rule("R-NINJA-UPDATE-IF-NEWER", "the bring-up-to-date-without-running shortcut is disabled for a non-generator command that has no successful "
+                                             "prior result or whose command hash changed, on every path to the shortcut", floor=3)
+    offs = [n for n in ia.nodes if n.get("k") == "bin" and n["op"] == "=" and expr_str(n.child("l")) == "canUpdateIfNewer" and core(n.child("r")).get("v") is False]
+    GEN, PRIOR, SAME = "command.hasGeneratorFlag()", "hasPriorResult", "(priorCommandHash == commandHash)"
+    guard = None
+    for o in offs:
+        for a in ia.ancestors(o):
+            if a.get("k") == "if" and any(x is o for x in a.child("then").walk()) and "hasGeneratorFlag" in expr_str(a.child("c")):
+                guard = (o, a)
+                break
+    if guard is None:
+        ru.violation("inputsAvailable|disable-site", "no assignment canUpdateIfNewer = false guarded by the generator flag / prior result / command hash", ia)
+    else:
+        o, iff = guard
+        need = [({GEN: False, PRIOR: False, SAME: True}, "no successful prior result"), ({GEN: False, PRIOR: False, SAME: False}, "no successful prior result"),
+                ({GEN: False, PRIOR: True, SAME: False}, "changed command hash")]
+        for env, what in need:
+            v = cfg.bool_eval(ia, iff.child("c"), env)
+            ru.check(v is True, "inputsAvailable|disabled-when %s (generator=%d prior=%d same-hash=%d)" % (what, env[GEN], env[PRIOR], env[SAME]), "",
+                     "the shortcut stays enabled for a non-generator command with %s (guard evaluates to %s)" % (what, v), ia, iff)
+        short = [c for c in ia.calls("TaskInterface::complete") if any(p and "canUpdateIfNewerWithResult" in a_ for a_, p in (bia.at_node(c) or frozenset()))]
+        ok = len(short) == 1 and any(p and a_ == "canUpdateIfNewer" for a_, p in (bia.at_node(short[0]) or frozenset()))
+        if ok:
+            gen_call = [c for c in ia.calls() if (c.get("fn") or "").endswith("hasGeneratorFlag") and any(x is c for x in iff.child("c").walk())]
+            gp = set(ia.elem_pos().get(c["id"]) for c in gen_call)
+            dom, _w = cfg.dominated_by(ia, ia.elem_pos()[short[0]["id"]], lambda p_, e_: p_ in gp)
+            ok = bool(gen_call) and dom
+            ons = [n for n in ia.nodes if n.get("k") == "bin" and n["op"] == "=" and expr_str(n.child("l")) == "canUpdateIfNewer" and core(n.child("r")).get("v") is not False]
+            ok = ok and not ons
+        ru.check(ok, "inputsAvailable|shortcut-behind-guard", "", "the shortcut completion is reachable without passing the disabling test, or canUpdateIfNewer is re-enabled", ia)
     sel = [f for f in prog.functions.values() if relpath(f.file) == NB and not f.is_lambda and f.name.endswith("SelectResultTask::inputsAvailable")]
     if len(sel) != 1:
         raise AnalysisBroken("SelectResultTask::inputsAvailable not found")
